@@ -37,6 +37,12 @@ CLAIMED = {
  "C10": ("class-hierarchy closure against the literal/provenance keys of the deserialiser registry (substring dispatch in registration order), writer/reader key-set agreement with delegation followed, lost-effect scan of deserialisers",
          "Static: every class derived from a dispatched class that writes its own provenance is itself dispatched, ambiguous matches resolve to the most specific key first, keys are unique; the keys each deserialiser requires are written by the matching to_rich_dict and keys left for **data fit the constructor; no deserialiser rebuilds an object after applying setters. Observational equality of the round trip is not decided.",
          "Trusts python ast, the resolver, import order (deserialise.py registers first), the NOT_SERIALISABLE exemption table (each with its reason)."),
+ "C01": ("ownership/taint of the raw view over MRO-resolved methods (def-use), qualifier typing of index spaces inside the view classes, normalised-AST twin diff of the two slice-algebra implementations",
+         "Static: no method of a concrete sequence class reads the raw (reversed, uncomplemented) view without the is_reversed-guarded complement and the realisation owners keep that guard; parent indices only index parent strings inside the three view classes; the 18 slice-algebra twins of the old and new implementation are identical after normalisation. The view arithmetic itself (all chains of slices) is integer arithmetic and not decided.",
+         "Trusts python ast, the MRO resolver, the raw/safe member tables of the view classes; twin rule: a one-sided semantics-preserving rewrite that survives the normaliser would be reported."),
+ "C04": ("normalised-AST twin diff, parameter-to-sink flow of the query window, callee-precondition check at constructor call sites with per-view-class summaries, offset-expression rule",
+         "Static: the translation methods present in both implementations are identical; get_features forwards its flags unchanged and converts/swaps the window ends as the database predicate (decided under C17) expects; no constructor call passes a coordinate-carrying view together with a non-zero annotation_offset, and offsets of sequences rebuilt from strings include the receiver's own offset. That a feature denotes the same residues after any history is not decided.",
+         "Trusts python ast, the summaries of SeqView/SeqDataView.copy, that slices of self._seq keep their coordinates."),
 }
 
 NOT_APPLICABLE = {
